@@ -162,6 +162,8 @@ BranchTooFar(s, enc, res) ==
     \E i \in DOMAIN s : /\ s[i].c \in {"skip", "bra"}
                         /\ s[i].target <= Len(s)
                         /\ LET d == o[s[i].target + 1] - (o[i] + 3) IN d > 32767 \/ d < -32768
+(* in a pre-v5 location list the expression length is a 2-byte field *)
+TooBigForLocList(s, enc, res, ctx) == ctx = "loclist" /\ enc.ver < 5 /\ PredictedSize(s, enc, res) > 65535
 RECURSIVE Forward(_)
 Forward(s) == \E i \in DOMAIN s : \/ s[i].c \in {"call", "parameter_ref"} /\ s[i].ent = "T2"
                                   \/ s[i].c = "entry_value" /\ Forward(s[i].sub)
